@@ -2,7 +2,7 @@
 from vf import core
 from . import remoteclient as rc
 
-FORMULAS = {'Gated', 'RegisterSigned', 'RegisterFresh', 'AcceptedOnlyIfValid', 'FlushedWithHandshake', 'AnsweredOnlyIfWritten', 'NoPanic'}
+FORMULAS = {'Gated', 'RegisterSigned', 'RegisterFresh', 'AcceptedOnlyIfValid', 'FlushedWithHandshake', 'SubscriptionsDirect', 'AnsweredOnlyIfWritten', 'NoPanic'}
 
 
 def main(argv):
